@@ -102,6 +102,24 @@ def search(ctx):
                         fail(('reject', fname), {'fn': fname, 'o': list(o)}, '%s rejects the valid orientation %r' % (fname, o))
             if not valid:
                 continue
+            # the same pixel values held in other memory layouts (column-major, transposed view, strided crop of a larger image, negative strides, float / int32 dtype)
+            big = np.zeros((2 * nx + 1, 2 * ny + 1), dtype=img.dtype)
+            big[1::2, 1::2] = img
+            layouts = {'Fortran order': np.asfortranarray(img), 'transposed view': np.ascontiguousarray(img.T).T, 'strided crop': big[1::2, 1::2],
+                       'negative strides': np.ascontiguousarray(img[::-1, ::-1])[::-1, ::-1], 'float64': img.astype(float), 'int32 Fortran': np.asfortranarray(img.astype(np.int32))}
+            for fname in ('trans_orientation', 'image_flipping'):
+                f = getattr(detector, fname)
+                for direction in ('forward', 'inverse'):
+                    ref = f(img.copy(), *o, direction)
+                    for lname, arr in layouts.items():
+                        ctx.count(('layout', fname, nx, ny, o, direction, lname), hist='search:%s:memory layouts' % fname)
+                        try:
+                            got = f(arr, *o, direction)
+                            if got.shape != ref.shape or not np.array_equal(got, ref):
+                                fail(('layout', fname), {'fn': fname, 'o': list(o), 'shape': [nx, ny], 'layout': lname},
+                                     '%s(%s) of a %s image differs from the result for the same pixel values in a C-ordered array (orientation %r, shape %r)' % (fname, direction, lname, o, (nx, ny)))
+                        except Exception as e:
+                            fail(('layoutexc', fname), {'fn': fname, 'o': list(o), 'layout': lname}, '%s raised %s on a %s image' % (fname, type(e).__name__, lname))
             # sizes: detz_size = extent along x, dety_size = extent along y
             dety_size, detz_size = ny, nx
             std = detector.trans_orientation(img.copy(), *o, 'forward')
